@@ -40,9 +40,10 @@ url == [sch |-> "https", host |-> row.o.host, labels |-> row.o.labels, kind |-> 
 valid == row.cut = NoCut /\ row.garbage \in {"-", "lfonly", "declared-length"}
 
 Emit == done => PrintT(<<"REPLAY", ToJson([kind |-> "loop", seed |-> 5,
-   req |-> [method |-> "POST", url |-> url, body |-> [kind |-> "text", len |-> 40], headers |-> <<<<"authorization", "Bearer SECRET-TOKEN-1">>, <<"x-api-key", "SECRET-KEY-2">>>>, params |-> <<>>],
+   req |-> [method |-> "POST", url |-> url, body |-> [kind |-> "text", len |-> 40], headers |-> <<<<"authorization", "Bearer SECRET-TOKEN-1">>, <<"x-api-key", "SECRET-KEY-2">>>>, params |-> <<>>,
+            session_headers |-> <<<<"cookie", "sid=SECRET-SESSION-3">>, <<"x-session", "SECRET-SESSION-4">>>>],
    settings |-> [follow |-> TRUE, maxRedir |-> 5, proxy |-> [disabled |-> FALSE, http |-> NoProxy, https |-> row.px, noproxy |-> <<>>]],
    nodes |-> <<>>,
    connect |-> [status |-> row.status, valid |-> valid, body |-> row.body, cutAt |-> row.cut, garbage |-> row.garbage, head |-> "two"],
-   secrets |-> <<"SECRET-TOKEN-1", "SECRET-KEY-2", "SECRET-QUERY", "SECRET-OPW", "secret-path", "b3U6U0VDUkVULU9QVw">>])>>)
+   secrets |-> <<"SECRET-SESSION-3", "SECRET-SESSION-4", "SECRET-TOKEN-1", "SECRET-KEY-2", "SECRET-QUERY", "SECRET-OPW", "secret-path", "b3U6U0VDUkVULU9QVw">>])>>)
 =============================================================================
